@@ -269,6 +269,8 @@ impl RunCfg {
                 // a member may repeat its SUBSCRIBE (same QoS): the broker lists
                 // it once more in the group, it must still leave completely
                 cfg.resub = ch.coin(1, 3);
+                // a member that withholds its acks must be able to fill its window
+                cfg.big_burst = ch.coin(1, 4);
             }
             P::C03 => {
                 cfg.rogue = true;
@@ -739,6 +741,12 @@ impl World {
         let clean = self.clients[c].clean;
         let id = self.clients[c].id.clone();
         let mut b = LinkBuilder::new(&id, self.router_tx.clone()).clean_session(clean);
+        if self.clients[c].rogue && self.ch.coin(1, 3) {
+            // an MQTT 5 client that accepts broker-assigned topic aliases (its
+            // forwards are not judged, so aliased empty topics do no harm here)
+            b = b.topic_alias_max(*self.ch.choose(&[1u16, 2, 8]));
+            self.rep.probe("client_with_topic_alias_max");
+        }
         let mut will = None;
         if self.clients[c].has_will {
             let topic = self.cfg.topics[self.ch.pick(self.cfg.topics.len() as u32) as usize];
@@ -1085,7 +1093,7 @@ impl World {
             let dup_id = link.awaiting.iter().any(|(p, _)| *p == pkid);
             link.awaiting.push_back((pkid, None));
             let n = link.awaiting.len();
-            if (self.prop == P::C09 || self.prop == P::C14) && !rogue {
+            if matches!(self.prop, P::C09 | P::C14 | P::C17) && !rogue {
                 if pkid == 0 {
                     self.viol("window_pkid_zero", format!("QoS{qos} forward to c{c} carries packet id 0"));
                 } else if dup_id {
